@@ -31,17 +31,25 @@ import (
 // ---------- observations ----------
 
 type c11IntLevel struct {
-	Graph  int          `json:"graph"` // index of the graph level (pre-order), -1 if the path is unknown
-	Before []string     `json:"before,omitempty"`
-	After  []string     `json:"after,omitempty"`
-	Rerun  []string     `json:"rerun,omitempty"`
-	State  *c11StateObs `json:"state,omitempty"` // InterruptInfo.State of that level
+	Graph   int          `json:"graph"` // index of the graph level (pre-order), -1 if the path is unknown
+	Before  []string     `json:"before,omitempty"`
+	After   []string     `json:"after,omitempty"`
+	Rerun   []string     `json:"rerun,omitempty"`
+	State   *c11StateObs `json:"state,omitempty"`   // InterruptInfo.State of that level
+	HasSubs bool         `json:"hasSubs,omitempty"` // paths family: the level reports interrupted nested graphs
+}
+
+// c11ModCall: one call of the caller's StateModifier (paths family).
+type c11ModCall struct {
+	Path string `json:"path"` // the NodePath it was called with, keys joined by "/"
+	ID   int    `json:"id"`   // the ID field of the state object it was handed
 }
 
 type c11IntObs struct {
-	Levels []c11IntLevel `json:"levels"` // outermost first, down to the level that interrupted
+	Levels []c11IntLevel `json:"levels"` // outermost first, down to the level that interrupted (paths family: the whole tree, pre-order)
 	Mod    int           `json:"mod"`    // the resume that followed: 0 = no modifier
 	Forked bool          `json:"forked,omitempty"`
+	Calls  []c11ModCall  `json:"calls,omitempty"` // paths family: the modifier calls of the resume that followed
 }
 
 // ---------- barrier control of the eager family ----------
@@ -441,6 +449,48 @@ func c11IntLevels(l *c11Layout, rr *c11RunRec, info *compose.InterruptInfo, wrap
 	return levels, forked
 }
 
+// c11IntTree walks the whole InterruptInfo tree (paths family): every level in pre-order.
+func c11IntTree(l *c11Layout, rr *c11RunRec, info *compose.InterruptInfo) (levels []c11IntLevel) {
+	var walk func(gi int, info *compose.InterruptInfo)
+	walk = func(gi int, info *compose.InterruptInfo) {
+		lv := c11IntLevel{Graph: gi, Before: vh.SortedStrings(info.BeforeNodes), After: vh.SortedStrings(info.AfterNodes),
+			Rerun: vh.SortedStrings(info.RerunNodes), HasSubs: len(info.SubGraphs) > 0}
+		if s, ok := info.State.(*C11State); ok && s != nil {
+			so := c11Snapshot(s, false)
+			lv.State = &so
+			rr.see(s)
+		}
+		levels = append(levels, lv)
+		keys := make([]string, 0, len(info.SubGraphs))
+		for k := range info.SubGraphs {
+			keys = append(keys, k)
+		}
+		sort.Strings(keys)
+		for _, k := range keys {
+			next := -1
+			if gi >= 0 {
+				for ni := range l.Graphs[gi].Nodes {
+					if l.Graphs[gi].Nodes[ni].Key == k {
+						gid := l.GNodes[gi][ni]
+						for sgi := range l.Graphs {
+							if l.GOwner[sgi] == gid {
+								next = sgi
+							}
+						}
+					}
+				}
+			}
+			if sub := info.SubGraphs[k]; sub != nil {
+				walk(next, sub)
+			}
+		}
+	}
+	walk(0, info)
+	// pre-order by level index (siblings were visited in key order)
+	sort.SliceStable(levels, func(i, j int) bool { return levels[i].Graph < levels[j].Graph })
+	return levels
+}
+
 func c11ResumeOneRun(c *c11Case, l *c11Layout, r *c11AnyRunner, interrupts bool) (obs c11RunObs) {
 	rr := &c11RunRec{nodes: map[string]*c11NodeObs{}, rerun: map[string]bool{}}
 	if c.Kind == "eager" {
@@ -475,9 +525,37 @@ func c11ResumeOneRun(c *c11Case, l *c11Layout, r *c11AnyRunner, interrupts bool)
 				}
 				obs.Interrupts++
 				io := c11IntObs{}
-				io.Levels, io.Forked = c11IntLevels(l, rr, info, c.Wrapped)
+				if c.Kind == "paths" {
+					io.Levels = c11IntTree(l, rr, info)
+				} else {
+					io.Levels, io.Forked = c11IntLevels(l, rr, info, c.Wrapped)
+				}
 				ropts := []compose.Option{compose.WithCheckPointID("cp")}
-				if tries < len(c.Mods) && c.Mods[tries] > 0 {
+				var calls []c11ModCall
+				if c.Kind == "paths" && tries < len(c.Mods) && c.Mods[tries] > 0 {
+					// the caller's modifier dispatches on the node path: a different amount per graph level
+					d := c.Mods[tries]
+					io.Mod = d
+					table := map[string]int{}
+					for gi := range l.Graphs {
+						table[c11LevelPath(l, gi)] = d * (gi + 1)
+					}
+					ropts = append(ropts, compose.WithStateModifier(func(ctx context.Context, path compose.NodePath, state any) error {
+						s, ok := state.(*C11State)
+						if !ok {
+							return fmt.Errorf("modifier: state is %T", state)
+						}
+						p := strings.Join(path.GetPath(), "/")
+						rr.mu.Lock()
+						calls = append(calls, c11ModCall{Path: p, ID: s.ID})
+						rr.mu.Unlock()
+						if dd, ok := table[p]; ok {
+							s.Ctr[0] += dd
+						}
+						rr.see(s) // the restored object, also when no node touches it afterwards
+						return nil
+					}))
+				} else if tries < len(c.Mods) && c.Mods[tries] > 0 {
 					d := c.Mods[tries]
 					io.Mod = d
 					ropts = append(ropts, compose.WithStateModifier(func(ctx context.Context, path compose.NodePath, state any) error {
@@ -499,6 +577,9 @@ func c11ResumeOneRun(c *c11Case, l *c11Layout, r *c11AnyRunner, interrupts bool)
 					atomic.StoreInt32(&rr.eager.resumed, 1)
 				}
 				out, err = r.invoke(ctx, ropts...)
+				rr.mu.Lock()
+				obs.Ints[len(obs.Ints)-1].Calls = append([]c11ModCall{}, calls...)
+				rr.mu.Unlock()
 			}
 		})
 	})
